@@ -124,6 +124,58 @@ GEN = {"out": fam_out, "restart": fam_restart, "req": fam_req, "close": fam_clos
        "inrestart": lambda r, i, t: fam_in(r, i, t, restart=True)}
 
 
+# Bounded instances of spec/MqttClient.tla: script, constants, export sampling (1 = whole transition cover)
+MC = {
+    "one":   dict(script="ScriptOne",   amax=2, emax=2, conns=2, dial=1, write=1, read=1, store=0, calls=4, k_quick=3, k_thorough=1),
+    "q2":    dict(script="ScriptQ2",    amax=2, emax=2, conns=2, dial=1, write=1, read=1, store=1, calls=4, k_quick=40, k_thorough=4),
+    "close": dict(script="ScriptClose", amax=2, emax=2, conns=2, dial=1, write=1, read=1, store=0, calls=4, k_quick=150, k_thorough=15),
+    "two":   dict(script="ScriptTwo",   amax=2, emax=2, conns=2, dial=0, write=1, read=0, store=0, calls=3, k_quick=400, k_thorough=60),
+    "max1":  dict(script="ScriptTwo",   amax=1, emax=1, conns=1, dial=0, write=0, read=0, store=0, calls=3, k_quick=30, k_thorough=3),
+}
+MC_FOR = {
+    "C01": ["one", "q2"], "C03": ["q2"], "C05": ["two"], "C10": ["one", "q2"], "C12": ["close"], "C17": ["max1", "one"],
+    "C18": ["one"], "C14": ["one", "close"], "C08": ["one", "two"], "C11": ["close"],
+}
+INVARIANTS = "TypeOK C01_NoForgedCompletion C03_ExactlyOnceDelivery C05_WireOrderIsIdOrder C12_Signals C17_Bounded C18_ConnectFirst"
+
+
+def tlc_behaviours(ctx, name, cap):
+    """Model-checks one bounded instance (design-level result) and returns exported behaviours."""
+    c = MC[name]
+    k = c["k_quick"] if ctx.tier == "quick" else c["k_thorough"]
+    cfg = ("CONSTANTS Script <- %s AMax = %d EMax = %d MaxConns = %d DialFails = %d WriteFails = %d ReadFails = %d "
+           "StoreFails = %d MaxCalls = %d DEV_F4 = FALSE DEV_F6 = FALSE SampleK = %d\n"
+           "SPECIFICATION Spec\nVIEW view\nINVARIANTS %s\nCHECK_DEADLOCK FALSE\nACTION_CONSTRAINT ExportStep\n") % (
+        c["script"], c["amax"], c["emax"], c["conns"], c["dial"], c["write"], c["read"], c["store"], c["calls"], k, INVARIANTS)
+    cfgname = "MC_client_%s_gen.cfg" % name
+    with open(os.path.join(ctx.specdir(), cfgname), "w") as f:
+        f.write(cfg)
+    res = pipeline.model_check(ctx, "MC_client", cfgname, args=["-seed", str(ctx.seed)], timeout=1500)
+    cases = pipeline.parse_cases(res.out)
+    script = pipeline.parse_cases(res.out, "SCRIPT")[0]
+    steps = [x["steps"] for x in cases]
+    keys = [json.dumps(x, sort_keys=True, separators=(",", ":")) for x in steps]
+    # a behaviour that is a prefix of another exported one is covered by it
+    allkeys = sorted(set(keys))
+    maximal = []
+    for i, kx in enumerate(allkeys):
+        stem = kx[:-1]
+        if i + 1 < len(allkeys) and allkeys[i + 1].startswith(stem + ","):
+            continue
+        maximal.append(json.loads(kx))
+    rnd = random.Random(ctx.seed)
+    rnd.shuffle(maximal)
+    maximal = maximal[:cap]
+    procs = {"rd": {"kind": "reader"}}
+    for p, ops in script.items():
+        procs[p] = {"kind": "script", "ops": [{"m": o["m"], "tag": o["tag"], "size": 8} for o in ops]}
+    ctx.cov["behaviours_exported"] = ctx.cov.get("behaviours_exported", 0) + len(cases)
+    if k == 1 and len(maximal) == len([1 for _ in maximal]) and cap >= len(maximal):
+        ctx.cov["exhaustive_configs"] = ctx.cov.get("exhaustive_configs", []) + [name]
+    return [{"id": "mc-%s-%d" % (name, i), "cfg": {"amax": c["amax"], "emax": c["emax"]}, "procs": procs, "steps": st,
+             "epilogue": "drain"} for i, st in enumerate(maximal)]
+
+
 def behaviours(ctx, families):
     rnd = random.Random(ctx.seed * 7919 + vlib.stable_hash(ctx.prop))
     thorough = ctx.tier != "quick"
@@ -147,13 +199,19 @@ def run(ctx, replay=None):
         behs = [data["behaviour"]]
     else:
         behs = behaviours(ctx, fams)
+        mcs = MC_FOR.get(ctx.prop, [])
+        cap = (1200 if ctx.tier == "quick" else 12000) // max(1, len(mcs))
+        for name in mcs:
+            behs += tlc_behaviours(ctx, name, cap)
+        if mcs:
+            ctx.level = "model_checking"
     if not behs:
         raise vlib.Inconclusive("no behaviours")
     execute_and_judge(ctx, binary, behs)
     ctx.cov["rule"] = ("seeded random schedules over the gate points of the real client (families %s) with faults "
                        "(failed/partial/timed-out writes, failed dials, store errors, connection breaks, stops + adoptions); "
                        "non-trivial = the trace contains at least one fault or more than one process; distinct by seed" % ",".join(fams))
-    ctx.cov["checker_cmd"] = "verifworker run ; tlc MonitorRun"
+    ctx.cov["checker_cmd"] = "tlc MC_client (design + export) ; verifworker run ; tlc MonitorRun"
 
 
 def execute_and_judge(ctx, binary, behs, confirm=True):
@@ -178,6 +236,17 @@ def execute_and_judge(ctx, binary, behs, confirm=True):
     ctx.cov["events_judged"] = ctx.cov.get("events_judged", 0) + nev
     ctx.cov["distinct_nontrivial"] += sum(1 for b in behs if len(b["procs"]) > 1 or (b.get("random") or {}).get("faults", 0) > 0 or b.get("steps"))
     ctx.cov["samples"] = (ctx.cov["samples"] + behs[:2])[:4]
+    ndiv = nrace = 0
+    for sb, tp in shards:
+        with open(tp) as f:
+            for line in f:
+                if '"e":"diverge"' in line:
+                    if "select-race" in line:
+                        nrace += 1
+                    else:
+                        ndiv += 1
+    ctx.cov["divergences"] = ctx.cov.get("divergences", 0) + ndiv
+    ctx.cov["select_races"] = ctx.cov.get("select_races", 0) + nrace
     seen = {}
     for clause, beh, tp, cid, seq in found:
         sig = signature(tp, cid, seq)
